@@ -13,6 +13,7 @@ from ..tables import enum_switches, switch_arms, variant_table, guard_context
 from .compiler_common import PX, SINK
 
 LEVEL = 'other'
+TECHNIQUE = 'static analysis: typestate / ordering (dominance) over the MIR of the borrow-check pipeline, enum-table extraction from match lowering, provenance slices, control-dependence of recursive calls in type walkers, field-read coverage'
 CLAUSE = ('OrderedCallGraph values are built only by order(), which is called only by new() after borrow_check()?; borrow_check runs '
           'multiple_consumers, move_while_borrowed, complex_borrow_check in that order on each other\'s output and returns Err whenever a '
           'pass added diagnostics; OwnershipRelationships::compute maps Move->consumes, SharedBorrow/ExclusiveBorrow->borrows, '
